@@ -754,8 +754,8 @@ def network(profile="exact", max_ops=6, dtypes=("int8", "int8", "int8", "uint8",
             first = draw(st.integers(0, 1))
             cur = run8(cur, draw(st.integers(2, 4)), first)
             for rep in range(draw(st.integers(1, 2))):
-                big = draw(st.sampled_from(["softmax", "lut16", "lut16"])) if dt8 == "int8" else "softmax"
-                if big == "softmax":
+                bigk = draw(st.sampled_from(["softmax", "lut16", "lut16"])) if dt8 == "int8" else "softmax"
+                if bigk == "softmax":
                     cur = nb.softmax(cur)
                 else:
                     cur = nb.quantize(cur, to="int16")
@@ -768,7 +768,7 @@ def network(profile="exact", max_ops=6, dtypes=("int8", "int8", "int8", "uint8",
             menu = list(EXACT_OPS)
             n_ops = draw(st.integers(1, max_ops))
             approx_tail = draw(st.sampled_from(["avgpool_same", "logistic", "tanh", "hswish", "lrelu", "mean", "resize_nearest", "avgpool_same", "tanh", "tconv", "tconv", "resize_bilinear",
-                                                    "exp", "log", "sqrt", "rsqrt", "gelu", "prelu", "prelu", "abs", "sqdiff"]))
+                                                    "exp", "log", "sqrt", "rsqrt", "gelu", "prelu", "prelu", "abs", "sqdiff", "softmax", "softmax"]))
             if os.environ.get("VERIF_FORCE_TAIL"):  # exploration aid (never set by a registered command): concentrate a run on one tail operator
                 approx_tail = os.environ["VERIF_FORCE_TAIL"]
         if profile == "exact16":  # exact-class operators whose 16-bit reference is pinned down (no ADD/SUB: their int16 reference depends on the pot_scale option)
